@@ -10,10 +10,10 @@ from sa.poly import RF
 from sa.selftest import Edit, Variant
 from sa.sym import ClassRef, Cond, Interp, PyCallable, PyRaise, Rec, SymStr, explore, method_of, to_rf
 
-from sa.texts import T as _T
+from sa.texts import T as _TX
 
-EXPLANATION = _T["C18"]["explanation"] + " Not decided: " + _T["C18"]["not_decided"] + "."
-ASSUMPTIONS = _T["C18"]["assumptions"]
+EXPLANATION = _TX["C18"]["explanation"] + " Not decided: " + _TX["C18"]["not_decided"] + "."
+ASSUMPTIONS = _TX["C18"]["assumptions"]
 P = "C18"
 S = RF.sym
 
